@@ -30,8 +30,11 @@ theorem readShards_append (ss : List KeyShard) (h : ∀ s ∈ ss, s.value.length
 theorem readShardSection_append (ss : List KeyShard) (h : ∀ s ∈ ss, s.value.length = 32) (r : Bytes) :
     readShardSection ss.length (ss.flatMap encShard ++ r) = .ok (ss, r) := by
   unfold readShardSection
+  -- the guard only has to let complete shard lists through: any stride up to the real 33 does
+  have hstride : shardStride ≤ 33 := by decide
   have : ¬ (ss.length * shardStride > (ss.flatMap encShard ++ r).length) := by
-    simp [encShards_length ss h, shardStride]
+    have := Nat.mul_le_mul_left ss.length hstride
+    simp [encShards_length ss h]; omega
   simp only [this, if_false]
   exact readShards_append ss h r
 
@@ -168,9 +171,10 @@ theorem readHeader_append (m : Manifest) (hwf : WF m) (cnt : UInt8) (r : Bytes) 
   have h2 := hwf.chunkHash
   have h3 := hwf.nonce
   have hlen : ¬ ((encHeader m ++ (cnt :: r)).length < headerMin) := by
-    simp [encHeader, appendU64_length, h1, h2, h3, headerMin, headerMinTerms]
+    simp [encHeader, appendU64_length, h1, h2, h3, headerMin, headerMinTerms]; omega
   unfold readHeader
-  simp only [hlen, if_false, encHeader, List.cons_append, List.append_assoc, rawByte_cons, Res.bind_ok]
+  rw [if_neg hlen]
+  simp only [encHeader, List.cons_append, List.append_assoc, rawByte_cons, Res.bind_ok]
   have hv : (!supportedVersions.contains (u8 kManifestVersion).toNat) = false := by decide
   simp only [hv, Bool.false_eq_true, if_false]
   rw [rawTake_append m.chunkId _ (by simp [chunkIdSize, h1])]
